@@ -1,6 +1,8 @@
 //! A UistClient over a shared in-process AppState that records every call and can behave eagerly
 //! (effect at the call, like TestClient) or lazily (effect when the returned future is first polled,
-//! like the reqwest Client's async fns).
+//! like the reqwest Client's async fns). A lazy client can also return Pending a number of times before it
+//! acts (`yields`): a conforming client over a real transport is not ready at the first poll, so whoever drives
+//! its future has to keep polling until it completes.
 use anyhow::{Error, Result};
 use rotala::exchange::uist_v1::{Order, OrderId};
 use rotala::http::uist::uistv1_client::{BacktestId, UistClient};
@@ -24,6 +26,22 @@ pub struct HClient {
     pub state: Shared,
     pub log: Log,
     pub lazy: bool,
+    pub yields: u32,
+}
+
+/// returns Pending once (waking itself), then Ready
+struct YieldOnce(bool);
+impl Future for YieldOnce {
+    type Output = ();
+    fn poll(mut self: Pin<&mut Self>, cx: &mut std::task::Context<'_>) -> std::task::Poll<()> {
+        if self.0 {
+            std::task::Poll::Ready(())
+        } else {
+            self.0 = true;
+            cx.waker().wake_by_ref();
+            std::task::Poll::Pending
+        }
+    }
 }
 
 type Fut<T> = Pin<Box<dyn Future<Output = Result<T>>>>;
@@ -33,7 +51,13 @@ impl HClient {
         let st = self.state.clone();
         let lg = self.log.clone();
         if self.lazy {
-            Box::pin(async move { f(&st, &lg) })
+            let n = self.yields;
+            Box::pin(async move {
+                for _ in 0..n {
+                    YieldOnce(false).await;
+                }
+                f(&st, &lg)
+            })
         } else {
             let r = f(&st, &lg);
             Box::pin(std::future::ready(r))
